@@ -96,7 +96,13 @@ def merge_vertices(
         stacked.append(normals * (10**digits_norm))
 
     # stack collected vertex properties and round to integer
-    stacked = np.column_stack(stacked).round().astype(np.int64)
+    stacked = np.column_stack(stacked).round()
+    # NaN, infinite and huge values all cast to the same integer:
+    # give every such row a key of its own so it is never merged
+    ok = (np.abs(stacked) < 2.0**62).all(axis=1)
+    stacked[~ok] = 0.0
+    alone = np.where(ok, 0, np.arange(1, len(stacked) + 1))
+    stacked = np.column_stack((stacked, alone)).astype(np.int64)
 
     # check unique rows of referenced vertices
     u, i = unique_rows(stacked[referenced], keep_order=True)
